@@ -83,7 +83,8 @@ Inductive builtin := BIsspace | BIsdigit | BIsalpha | BIsupper | BIslower | BIsa
                    | BTolower | BToupper | BStrlen | BStrchr
                    | BMalloc | BFree | BMemcpy | BMemmove | BMemset
                    | BStrcmp | BStrncmp | BStrrchr | BStrcpy      (* sizes in CELLS: the translator divides the byte counts *)
-                   | BAtoi.
+                   | BAtoi
+                   | BStrcat.
 
 Definition b2z (b : bool) : Z := if b then 1 else 0.
 Definition chk (t : ity) (z : Z) : res Z :=
@@ -277,7 +278,11 @@ Definition do_builtin_m (f : builtin) (args : list val) (m : mem) : res (val * m
   | BStrcpy, [VPtr bd od; VPtr bs os] =>
       do l <- blk_from m bs os; do n <- scan0 l O;
       do m' <- write_cells m bd od (firstn (S n) l); Ok (VPtr bd od, m')
-  | BMalloc, _ | BFree, _ | BMemcpy, _ | BMemmove, _ | BMemset, _ | BStrcpy, _ => Err EShape
+  | BStrcat, [VPtr bd od; VPtr bs os] =>        (* the terminated source is written over the destination's terminator *)
+      do ld <- blk_from m bd od; do k <- scan0 ld O;
+      do l <- blk_from m bs os; do n <- scan0 l O;
+      do m' <- write_cells m bd (od + Z.of_nat k) (firstn (S n) l); Ok (VPtr bd od, m')
+  | BMalloc, _ | BFree, _ | BMemcpy, _ | BMemmove, _ | BMemset, _ | BStrcpy, _ | BStrcat, _ => Err EShape
   | _, _ => do v <- do_builtin f args m; Ok (v, m)
   end.
 
